@@ -70,14 +70,14 @@ impl DynamicTypeItem {
                 None => return None
             };
 
+            if next_item.index == target_type.index {
+                break;
+            }
+
             search_index = match source_type.index > target_type.index {
                 true => search_index - 1,
                 false => search_index + 1
             };
-            
-            if next_item.index == target_type.index {
-                break;
-            }
             
         }
         
